@@ -564,12 +564,19 @@ func TestCheck(t *testing.T) {
 	if p := c.ReplayPath(); p != "" {
 		var w struct {
 			Witness struct {
-				Case caseT `json:"case"`
+				Case    caseT         `json:"case"`
+				Hostile *hostileProbe `json:"hostile_probe"`
 			} `json:"witness"`
 		}
 		rig.ReadJSON(p, &w)
+		if w.Witness.Hostile != nil {
+			runHostileProbe(c) // the probe matrix is fixed: the replay runs all of it again
+			c.MinNontrivial = 0
+			return
+		}
 		cases = append(cases, w.Witness.Case)
 	} else {
+		runHostileProbe(c)
 		cases = append(fixedCases(), chainCases()...)
 		c.Extra("fixed_chain_cases", len(cases))
 		for i := range cases {
